@@ -88,6 +88,18 @@ Theorem C03_spec_equiv : forall keep tpl body rs,
 Proof. exact C03_spec_equiv_lemma. Qed.
 Print Assumptions C03_spec_equiv.
 
+(* decode_packet refines the specification-level reading of the byte string (spec_packet:
+   header fields by offset, field specifiers per RFC 7011 3.2, split_body): the same message,
+   and an error exactly when the byte string denotes no message under the template state *)
+Theorem C03_refines : forall m reg tm bytes, tm_safe tm ->
+  match fst (decode_packet m reg tm bytes) with
+  | Ok msg => spec_packet m reg tm bytes = Some msg
+  | Err _ => spec_packet m reg tm bytes = None
+  | Panic | OutOfFuel => False
+  end.
+Proof. exact decode_packet_refines. Qed.
+Print Assumptions C03_refines.
+
 (* the executable oracle (applied by the check to the implementation's observations) holds of
    the model on every history *)
 Theorem C03_oracle : forall m pkts,
